@@ -117,7 +117,13 @@ fn finish_check(prop: &str, tier: &str, batch_seed: u64, t0: Instant, main: Batc
     let _ = std::fs::create_dir_all(format!("{}/replays", vdir));
 
     let mut all: Vec<(String, J, u64)> = main.violations.iter().map(|(id, (doc, n))| (id.clone(), doc.clone(), *n)).collect();
-    all.extend(extra_violations);
+    for (id, doc, n) in extra_violations {
+        // one report per violation class: the same class seen by another layer (or by a pinned scenario) adds to the count
+        match all.iter_mut().find(|(i, _, _)| *i == id) {
+            Some((_, _, count)) => *count += n,
+            None => all.push((id, doc, n)),
+        }
+    }
     // process-level findings of C07 carry whole programs: shrink them by re-running the real binary
     for (id, doc, _) in all.iter_mut() {
         if prop == "C07" && doc.get("layer_b").is_some() && !doc.bool_of("minimised") && doc.str_of("clause").starts_with("process-") && doc.str_of("clause") != "process-hang" {
